@@ -22,7 +22,8 @@ STACKS = ["pooled", "hash", "hashpooled", "retrying", "retrying2"]
 def extra_events():
     return [{"e": "op", "op": o, "k": "", "v": [], "exp": 0, "nr": False, "cas": 0, "delta": 0, "keys": [], "items": []}
             for o in ("set-strval", "set-intval", "set-ukey", "get-ukey", "set-flags", "touch-kw", "gat-kw", "get-many-empty",
-                      "set-empty", "getitem-empty", "setitem", "getitem", "delitem", "getitem-miss", "set-none", "get-none")]
+                      "set-empty", "getitem-empty", "setitem", "getitem", "delitem", "getitem-miss", "set-none", "get-none",
+                      "set-2char", "get-2char", "get-2byte", "gets-kwdefaults-miss", "gats-kwdefaults-miss", "incr-kwkey")]
 
 
 def configs(tier, rnd):
